@@ -41,6 +41,8 @@ func checkC17(c *Ctx) {
 	c.Rule("C17-R4", "getCharset: LC_ALL, then LC_CTYPE, then LANG; POSIX and C mean US-ASCII")
 	c.Rule("C17-R5", "the fallback map is consulted by direct lookup only and never copied after construction")
 	c.Rule("C17-R6", "RegisterEncoding and GetEncoding apply the same name normalisation under the registry lock; GetEncoding returns nil only when no fallback is configured")
+	c.Rule("C17-R8", "the charset registration table: every name is registered with the encoding object of the same name (names compared without case and punctuation); every alias points at a registered name with the same digits/letters core")
+	c.Expect("C17-R8", 25)
 	c.Rule("C17-R7", "the buffer the charset encoder writes into has a constant size of at least 4 bytes in encodeRune and CanDisplay (not sized by the rune's UTF-8 length)")
 	c.Expect("C17-R7", 2)
 	for r, n := range map[string]int{"C17-R1": 3, "C17-R2": 3, "C17-R3": 32 + 31 + 3, "C17-R4": 3, "C17-R5": 1, "C17-R6": 3} {
@@ -161,6 +163,114 @@ func checkC17(c *Ctx) {
 	}
 	c.Check(len(bad) == 0 && n >= 4, "C17-R5", "fallback:direct-lookups-only", "-", fmt.Sprintf("%d uses of t.fallback; uses other than lookup/update/delete: %v", n, bad))
 	c17Registry(c, p)
+	c17Table(c, p)
+}
+
+// c17Table: constant extraction of encoding/all.go's registration table.
+func c17Table(c *Ctx, p *Prog) {
+	pk := p.pkg("encoding")
+	if pk == nil {
+		c.Undecided("C17-R8", "package encoding", "-", "not loaded")
+		return
+	}
+	normName := func(s string) string {
+		var b strings.Builder
+		for _, r := range strings.ToUpper(s) {
+			if (r >= 'A' && r <= 'Z') || (r >= '0' && r <= '9') {
+				b.WriteRune(r)
+			}
+		}
+		return b.String()
+	}
+	type pair struct {
+		name, obj string
+		pos      token.Pos
+	}
+	var pairs []pair
+	nonConst := 0
+	aliases := map[string]string{}
+	var aliasPos token.Pos
+	for _, f := range pk.Syntax {
+		ast.Inspect(f, func(n ast.Node) bool {
+			switch x := n.(type) {
+			case *ast.CallExpr:
+				sel, ok := x.Fun.(*ast.SelectorExpr)
+				if !ok || sel.Sel.Name != "RegisterEncoding" || len(x.Args) != 2 {
+					return true
+				}
+				name, okN := strConst(pk.TypesInfo, x.Args[0])
+				obj, okO := x.Args[1].(*ast.SelectorExpr)
+				if okN && okO {
+					pairs = append(pairs, pair{name, obj.Sel.Name, x.Pos()})
+				} else {
+					nonConst++
+				}
+			case *ast.CompositeLit:
+				// table rows {"NAME", pkg.Object}
+				if len(x.Elts) == 2 {
+					name, okN := strConst(pk.TypesInfo, x.Elts[0])
+					obj, okO := x.Elts[1].(*ast.SelectorExpr)
+					if okN && okO {
+						pairs = append(pairs, pair{name, obj.Sel.Name, x.Pos()})
+					}
+				}
+				// the alias map
+				if mt, ok := pk.TypesInfo.TypeOf(x).(*types.Map); ok {
+					if kb, ok := mt.Key().Underlying().(*types.Basic); ok && kb.Kind() == types.String {
+						if vb, ok := mt.Elem().Underlying().(*types.Basic); ok && vb.Kind() == types.String {
+							aliasPos = x.Pos()
+							for _, e := range x.Elts {
+								if kv, ok := e.(*ast.KeyValueExpr); ok {
+									k, ok1 := strConst(pk.TypesInfo, kv.Key)
+									v, ok2 := strConst(pk.TypesInfo, kv.Value)
+									if ok1 && ok2 {
+										aliases[k] = v
+									}
+								}
+							}
+						}
+					}
+				}
+			}
+			return true
+		})
+	}
+	// one call with non-constant arguments is the alias loop (and, in a table-driven variant, the table loop)
+	if len(pairs) < 20 {
+		c.Undecided("C17-R8", "registration table", "-", fmt.Sprintf("only %d (name, encoding) pairs could be extracted (%d calls with non-constant arguments)", len(pairs), nonConst))
+		return
+	}
+	registered := map[string]bool{"USASCII": true, "UTF8": true, "ASCII": true}
+	for _, pr := range pairs {
+		registered[normName(pr.name)] = true
+		want, got := normName(pr.name), normName(pr.obj)
+		ok := want == got
+		detail := fmt.Sprintf("%q is registered with %s", pr.name, pr.obj)
+		if !ok {
+			if ex, why := c17TableException(pr.name, pr.obj); ex {
+				ok = true
+				detail += " (exception: " + why + ")"
+				c.Exception(fmt.Sprintf("encoding table: %q ↔ %s: %s", pr.name, pr.obj, why))
+			}
+		}
+		c.Check(ok, "C17-R8", "charset:"+pr.name, p.pos(pr.pos), detail)
+	}
+	for _, a := range sortedKeys(aliases) {
+		t := aliases[a]
+		na, nt := normName(a), normName(t)
+		// an alias is its target with a prefix or separators dropped/added
+		core := func(s string) string { return strings.TrimPrefix(strings.TrimPrefix(s, "ISO"), "US") }
+		ok := registered[nt] && (core(na) == core(nt) || (na == "SJIS" && nt == "SHIFTJIS") || (strings.HasSuffix(na, "646") && nt == "USASCII"))
+		c.Check(ok, "C17-R8", "alias:"+a, p.pos(aliasPos), fmt.Sprintf("%q → %q (target registered: %v)", a, t, registered[nt]))
+	}
+}
+
+// c17TableException: reasoned exceptions of the name/object agreement.
+func c17TableException(name, obj string) (bool, string) {
+	if name == "GB2312" && obj == "GBK" {
+		return true, "EUC-CN (what the GB2312 codeset of a locale means) has no object of its own in x/text; GBK is its superset and coincides with it on the GB2312 repertoire (the WHATWG Encoding standard maps the label gb2312 to GBK the same way)"
+	}
+	return false, ""
 }
 
 func c17Acs(c *Ctx, p *Prog) {
